@@ -17,14 +17,38 @@ static vh::Lifetime *g_reg;
 static std::string g_ctx;
 
 // ------------------------------------------------------------------ instrumented payload
+// failpoint: when armed, the n-th constructor / assignment of the instrumented payload from now on fails the way a
+// heap-owning payload fails (it throws before the object exists / before the target is changed)
+struct InjectedFault
+{
+};
+static int g_failIn      = 0;
+static long g_faultsHit  = 0;
+static inline void failpoint()
+{
+  if (g_failIn > 0 && --g_failIn == 0) {
+    ++g_faultsHit;
+    throw InjectedFault();
+  }
+}
+
 struct Tracked
 {
   std::string payload;
   int v;
-  Tracked() : payload("default"), v(-1) { g_reg->onConstruct(this, g_ctx); }
-  Tracked(int x) : payload("tracked-payload-on-the-heap-" + std::to_string(x)), v(x) { g_reg->onConstruct(this, g_ctx); }
+  Tracked() : payload("default"), v(-1)
+  {
+    failpoint();
+    g_reg->onConstruct(this, g_ctx);
+  }
+  Tracked(int x) : payload("tracked-payload-on-the-heap-" + std::to_string(x)), v(x)
+  {
+    failpoint();
+    g_reg->onConstruct(this, g_ctx);
+  }
   Tracked(const Tracked &o) : v(-2)
   {
+    failpoint();
     if (g_reg->requireLive(&o, "copy-from", g_ctx)) {
       payload = o.payload;
       v       = o.v;
@@ -33,6 +57,7 @@ struct Tracked
   }
   Tracked(Tracked &&o) : v(-2)
   {
+    failpoint();
     if (g_reg->requireLive(&o, "move-from", g_ctx)) {
       payload = o.payload;  // a move that leaves the source intact
       v       = o.v;
@@ -41,6 +66,7 @@ struct Tracked
   }
   Tracked &operator=(const Tracked &o)
   {
+    failpoint();
     if (!g_reg->requireLive(this, "assign-to", g_ctx) || !g_reg->requireLive(&o, "assign-from", g_ctx))
       return *this;
     payload = o.payload;
@@ -49,6 +75,7 @@ struct Tracked
   }
   Tracked &operator=(Tracked &&o)
   {
+    failpoint();
     if (!g_reg->requireLive(this, "assign-to", g_ctx) || !g_reg->requireLive(&o, "assign-from", g_ctx))
       return *this;
     payload = o.payload;
@@ -145,6 +172,18 @@ struct P<Tracked>
   static bool eq(const Tracked &a, int k) { return a.v == k && a.payload == "tracked-payload-on-the-heap-" + std::to_string(k); }
   static bool movedFromKnown() { return true; }
 };
+template <typename T>
+struct Faulty  // can operations of this payload be made to fail, and is the storage of an engaged wrapper live
+{
+  static bool can() { return false; }
+  static bool live(const T &, const std::string &) { return true; }
+};
+template <>
+struct Faulty<Tracked>
+{
+  static bool can() { return true; }
+  static bool live(const Tracked &t, const std::string &ctx) { return g_reg->requireLive(&t, "has_value()-reported", ctx); }
+};
 template <>
 struct P<Aligned32>
 {
@@ -180,6 +219,8 @@ static void checkOne(const Optional<T> &w, const M &m, const std::string &what, 
     return;
   }
   if (m.engaged) {
+    if (!Faulty<T>::live(w.value(), ctx))
+      return;
     if ((uintptr_t)&w.value() % alignof(T) != 0)
       vh::violation(fam + "misaligned-storage", "address of the stored value is not a multiple of alignof(T)=" + std::to_string(alignof(T)), ctx);
     else if (m.known && !(P<T>::eq(w.value(), m.k) && P<T>::eq(*w, m.k) && &w.value() == w.operator->()))
@@ -219,6 +260,15 @@ static void optionalHistory(vh::Rng &r, long caseIdx, int len)
       g_ctx = ctx;
       h     = vh::hash64(h, (uint64_t)op * 64 + (uint64_t)i * 16 + (uint64_t)j * 4 + (m[j].engaged ? 1 : 0) + (m[i].engaged ? 2 : 0));
       vh::count((std::string("opt_op_") + kOptOps[op]).c_str());
+      // a quarter of the steps on the instrumented payload run with the failpoint armed: one of the next 1..3
+      // payload constructions / assignments throws
+      bool armed = Faulty<T>::can() && r.chance(1, 4);
+      if (armed) {
+        g_failIn = 1 + (int)r.below(3);
+        ctx += "[fail#" + std::to_string(g_failIn) + "]";
+        g_ctx = ctx;
+      }
+      try {
       switch (op) {
       case 0:
         w[i]->reset();
@@ -353,6 +403,19 @@ static void optionalHistory(vh::Rng &r, long caseIdx, int len)
         break;
       }
       }
+      } catch (const InjectedFault &) {
+        // the operation failed half way. What the target now reports is up to the wrapper (engaged with an
+        // unspecified value, or empty); what is demanded is that it is true: an engaged wrapper holds a live
+        // payload (checkOne), nothing is destroyed twice or left behind (registry), sources of copies are intact.
+        ctx += "[threw]";
+        g_ctx = ctx;
+        vh::count((std::string("opt_fault_in_") + kOptOps[op]).c_str());
+        m[i].engaged = w[i]->has_value();
+        m[i].known   = false;
+        if (op == 5 || op == 7)
+          m[j].known = false;
+      }
+      g_failIn = 0;
       for (int q = 0; q < 3; ++q)
         checkOne(*w[q], m[q], kOptOps[op], ctx);
     }
@@ -598,7 +661,8 @@ int main(int argc, char **argv)
   vh::rule(
       "case = one random history (<= 12 operations over 3 wrappers, random initial engagement) for one payload type; operations: value / "
       "copy / move / converting construction and assignment from engaged AND empty sources, emplace, reset, value_or, make_optional, "
-      "comparisons, toString; distinct = hash of (payload, operation, operands, engagement of target and source) over the history; "
+      "comparisons, toString; on the lifetime-instrumented payload a quarter of the operations run with a failpoint armed (one of the "
+      "next 1..3 payload constructions / assignments throws); distinct = hash of (payload, operation, operands, engagement of target and source) over the history; "
       "non-trivial = at least one operation");
   g_reg = new vh::Lifetime("C09:payload");
   long n = vh::tier(45000, 1000000);
